@@ -305,6 +305,10 @@ pub fn run_matrix(tier: &str, seed: u64, out: &mut Out) {
     ];
     let mut loop_templates = loop_templates;
     // a member of a conditional whose branch is the item of a list without data path (the item's path variable is null)
+    // event-like property names in attribute syntax (`bindselect`, `catch-close`, `on-x`) bound to members of a script module
+    // through top-level fields: the script path travels in the 5th argument of R.r, at creation, in tree updates and in the
+    // binding-map updaters alike
+    loop_templates.push("<wxs module=\"inl\">exports.o = {g: function inl_o_g(){}, k: function inl_o_k(){}}; exports.h = function inl_h(){}</wxs><v bindselect=\"{{ inl.o[d ? 'g' : 'k'] }}\" catch-close=\"{{ a ? inl.h : inl.o.g }}\" on-x=\"{{ inl.h }}\" bindtap=\"{{ a ? inl.o.k : inl.h }}\"/>");
     // the loop index is not assignable: no path for it, alone, in a chain, as the taken branch of a conditional, nested, and
     // for lists of a script module (where event / change: bindings carry the script path)
     loop_templates.push("<block wx:for=\"{{ g }}\"><v model:value=\"{{ index }}\" model:w=\"{{ d ? index : item.name }}\" bind:tap=\"{{ index }}\" change:p=\"{{ index }}\"/><block wx:for=\"{{ item.members }}\" wx:for-item=\"mm\" wx:for-index=\"mi\"><v model:value=\"{{ mi }}\" model:w=\"{{ index }}\" model:u=\"{{ a ? mi : mm.name }}\"/></block></block>");
